@@ -2,7 +2,7 @@
 over exact rationals.
 
 T1  stock <- flow <- constant                       (constants: constant;  initial: s0)
-T2  stockA -move-> stockB, move = gain*lookup(time,tbl) - drain   (biflow, converter, named table)
+T2  stockA -move-> stockB, gain = k*lookup(time,tbl), move = gain - drain*lookup(time,tbl2)   (biflow, converter, two named tables)
 T3  tank initialised from constant `init`, outflow leak = max(0, rate - threshold)
 
 All default parameters are dyadic (k/8) so that the real code and the rational reference
@@ -14,7 +14,7 @@ from decimal import Decimal
 DEFAULTS = {
     "T1": {"constants": {"constant": 1.0}, "initial": {"stock": 0.0}, "points": {}},
     "T2": {"constants": {"drain": 0.5, "k": 1.5}, "initial": {"stockA": 10.0, "stockB": 2.0},
-           "points": {"tbl": [[0.0, 1.0], [4.0, 3.0], [8.0, 0.0], [16.0, 2.0]]}},
+           "points": {"tbl": [[0.0, 1.0], [4.0, 3.0], [8.0, 0.0], [16.0, 2.0]], "tbl2": [[0.0, 1.0], [100.0, 1.0]]}},
     "T3": {"constants": {"init": 20.0, "rate": 2.5, "threshold": 1.0}, "initial": {}, "points": {}},
 }
 
@@ -26,7 +26,7 @@ ELEMENTS = {
 
 STOCKS = {"T1": ["stock"], "T2": ["stockA", "stockB"], "T3": ["tank"]}
 CONSTANTS = {"T1": ["constant"], "T2": ["drain", "k"], "T3": ["init", "rate", "threshold"]}
-TABLES = {"T1": [], "T2": ["tbl"], "T3": []}
+TABLES = {"T1": [], "T2": ["tbl", "tbl2"], "T3": []}
 
 
 def merged(template, constants=None, points=None, initial=None):
@@ -46,9 +46,15 @@ def build(template, start=0.0, stop=10.0, dt=1.0, constants=None, points=None, i
     directly into the DSL (this is also the C06/C07 oracle: "a freshly built model carrying
     exactly that scenario's settings")."""
     from BPTK_Py import Model
+    m = Model(starttime=start, stoptime=stop, dt=dt, name=name or ("m" + template))
+    define(m, template, constants, points, initial)
+    return m
+
+
+def define(m, template, constants=None, points=None, initial=None):
+    """write the template's DSL definitions into an existing Model"""
     from BPTK_Py import sd_functions as sd
     c, p, i = merged(template, constants, points, initial)
-    m = Model(starttime=start, stoptime=stop, dt=dt, name=name or ("m" + template))
     if template == "T1":
         stock = m.stock("stock")
         flow = m.flow("flow")
@@ -65,12 +71,13 @@ def build(template, start=0.0, stop=10.0, dt=1.0, constants=None, points=None, i
         drain = m.constant("drain")
         k = m.constant("k")
         m.points["tbl"] = [list(x) for x in p["tbl"]]
+        m.points["tbl2"] = [list(x) for x in p["tbl2"]]
         a.initial_value = float(i["stockA"])
         b.initial_value = float(i["stockB"])
         drain.equation = float(c["drain"])
         k.equation = float(c["k"])
         gain.equation = k * sd.lookup(sd.time(), "tbl")
-        move.equation = gain - drain
+        move.equation = gain - drain * sd.lookup(sd.time(), "tbl2")
         a.equation = -move
         b.equation = move
     elif template == "T3":
@@ -155,7 +162,7 @@ def reference(template, start, dt, nsteps, params_at, initial=None):
             row["drain"] = c["drain"]
             row["k"] = c["k"]
             row["gain"] = c["k"] * _lookup(t, p["tbl"])
-            row["move"] = row["gain"] - row["drain"]
+            row["move"] = row["gain"] - row["drain"] * _lookup(t, p["tbl2"])
             if k == 0:
                 ini = initial or DEFAULTS["T2"]["initial"]
                 row["stockA"] = F(str(ini["stockA"]))
